@@ -190,9 +190,15 @@ func genSimCfg(seed int64, i int) simCfg {
 			if n < 2 {
 				continue
 			}
-			a := 1 + rng.Intn(n) // size of the 43689 group among n+1 entries, leaves >=1 outside
-			grpA := splitSum(rng, 43689, a)
-			grpB := splitSum(rng, scaledMax-43689, n+1-a)
+			// raw total R in {65535, 65534, 65533}: scaled power equals raw power for every member
+			// (floor(65535*p/R) = p for p < R/2+...; checked by honestCanProgress via mkRefTable) and for
+			// the two smaller totals 2R is not divisible by 3, so floor(2R/3) and ceil(2R/3) differ:
+			// one group sums to exactly ceil(2R/3)-1
+			R := int64(scaledMax) - int64(rng.Intn(3))
+			below := (2*R+2)/3 - 1
+			a := 1 + rng.Intn(n) // size of the just-below group among n+1 entries, leaves >=1 outside
+			grpA := splitSum(rng, below, a)
+			grpB := splitSum(rng, R-below, n+1-a)
 			all := append(grpA, grpB...)
 			rng.Shuffle(len(all), func(x, y int) { all[x], all[y] = all[y], all[x] })
 			// the smallest entry is the adversary
@@ -725,10 +731,15 @@ func (d *driver) drive(inst uint64, a *gpbft.ECChain) {
 			d.b, _ = gpbft.NewChain(base) // the base alone
 		case d.bKind == 1 && a.Len() > 2:
 			d.b = a.Prefix(1)
+		case d.bKind == 3 && a.Len() > 2:
+			// same base and same head, another chain in between (a tipset skipped)
+			d.b, _ = gpbft.NewChain(base, a.Head())
+		case d.bKind == 3 && a.Len() == 2 && a.Head().Epoch > base.Epoch+1:
+			d.b, _ = gpbft.NewChain(base, &gpbft.TipSet{Epoch: base.Epoch + 1, Key: []byte("inserted"), PowerTable: base.PowerTable}, a.Head())
 		default:
 			d.b, _ = gpbft.NewChain(base, &gpbft.TipSet{Epoch: base.Epoch + 1, Key: []byte("fork"), PowerTable: base.PowerTable})
 		}
-		if d.b.Eq(a) {
+		if d.b == nil || d.b.Eq(a) {
 			d.b, _ = gpbft.NewChain(base, &gpbft.TipSet{Epoch: base.Epoch + 1, Key: []byte("fork"), PowerTable: base.PowerTable})
 		}
 		d.decide(inst, committee, supp, d.b)
